@@ -279,6 +279,7 @@ def run(ctx, R):
              "%s must call set_ball before unwind_stack on every path" % name, F.where(te))
 
     cut_runs_cleaners(F, R)
+    cleaner_loops_ignore_outcome(R)
     # ---- error_form builds error(Formal, Context) ---------------------------------------------------------------
     ef = F.find_impl("MachineState", None, "error_form")
     h = F.hir(ef)
@@ -592,3 +593,42 @@ def cut_runs_cleaners(F, R):
             R.ob("C12:cut-runs-cleaners:%s" % short(p), calls_cleaners(ph["body"]),
                  "%s cuts with cut_body/cut_prev_body and does not call run_cleaners_fn afterwards" % short(p), F.where(p))
     R.floor("cut sites", n, 3)
+
+
+def cleaner_loops_ignore_outcome(R):
+    """setup_call_cleanup/3: the outcome of a cleanup is ignored. The two loops that run the pending cleanups (after a cut,
+    an exit, a failure or an exception several may be pending at once) must go on to the next cleanup whether the current
+    one succeeded or failed: the goal that runs the cleaner C is wrapped so that it cannot fail the loop's clause."""
+    text = open(os.path.join(REPO, "src/lib/iso_ext.pl")).read()
+    loops = {}
+    for t, line in P.read_clauses(text):
+        head, body = P.head_body(t)
+        f = P.functor(head)
+        if f in (("run_cleaners_with_handling", 0), ("run_cleaners_without_handling", 1)):
+            loops.setdefault(f, []).append((line, head, body))
+    if len(loops) != 2:
+        raise AnchorLost("iso_ext.pl: cleaner loops found: %s" % sorted(loops))
+
+    def subterms(t):
+        yield t
+        if t[0] == "cmp":
+            for a in t[2]:
+                yield from subterms(a)
+    for f, cls in sorted(loops.items()):
+        line, head, body = cls[0]
+        items = P.conj(body)
+        getc = [g for g in items if P.functor(g) == ("$get_scc_cleaner", 1)]
+        rec = [g for g in items if P.functor(g) == f]
+        if len(getc) != 1 or not rec:
+            raise AnchorLost("iso_ext.pl: first clause of %s/%d is not the loop (get cleaner, run it, recurse)" % f)
+        c = getc[0][2][0]
+        runs = [g for g in items if g is not getc[0] and any(x == c for x in subterms(g))]
+        ok = bool(runs)
+        for g in runs:
+            shielded = (g[0] == "cmp" and g[1] == ";" and len(g[2]) == 2 and g[2][1] == ("atom", "true")) or P.functor(g) == ("ignore", 1) or \
+                (P.functor(g) == ("\\+", 1) and P.functor(g[2][0]) == ("\\+", 1))
+            ok = ok and shielded
+        R.ob("C12:cleaner-loop:%s/%d:goes-on-when-a-cleanup-fails" % f, ok,
+             "%s/%d runs the cleanup as %s: when it fails the loop's clause fails and the cleanups still pending are not run now "
+             "((scc(true, member(_,[1,2]), write(c1)), scc(true, member(_,[1,2]), (write(c2), fail)), !) runs c1 only much later)"
+             % (f[0], f[1], [P.show(g) for g in runs]), "src/lib/iso_ext.pl (line %s)" % line)
